@@ -4,15 +4,15 @@ namespace AwsVerif.Threads
 
 def aPlus : Instr → Nat
   | .freeW _ => 1
-  | .create _ => 1
-  | .act (.launch _) => 1
+  | .create _ _ _ => 1
+  | .act (.launch _ _ _) => 1
   | .joinAndFree l => l.length
   | _ => 0
 
 def aMinus : Instr → Nat
   | .allocW _ => 1
   | .joinM _ => 1
-  | .act (.launch _) => 1
+  | .act (.launch _ _ _) => 1
   | .joinAndFree l => l.length
   | _ => 0
 
@@ -161,18 +161,20 @@ theorem exec_wEq (P : Prog) (s s' : State) (t : Nat) (i : Instr) (rest : List In
         simp [wwPlus, wwMinus, hc, wsum, aPlus, aMinus, Ne.symm hjt]
     · refine wEq_upd1 P s _ t _ hE ht rfl ?_
       simp [wwPlus, wwMinus, hc, wsum, aPlus, aMinus]
-  case create k =>
+  case create k pin nf =>
     simp only [exec] at h
     split at h
     · simp only [Option.some.injEq] at h; subst h
       refine wEq_upd1 P s _ t _ hE ht rfl ?_
       simp only [wwPlus, wwMinus, hc, wsum, aPlus, aMinus, wsum_append, cont_wLive, pushW_wLive]
-      split <;> simp [wsum, aPlus, aMinus] <;> omega
+      by_cases hmk : P.managed k = true <;> by_cases hp : pin = true <;>
+        simp [hmk, hp, wsum, aPlus, aMinus] <;> omega
     · split at h
       · simp only [Option.some.injEq] at h; subst h
         refine wEq_upd1 P s _ t _ hE ht rfl ?_
         simp only [wwPlus, wwMinus, hc, wsum, aPlus, aMinus, wsum_append, cont_wLive]
-        split <;> simp [wsum, aPlus, aMinus] <;> omega
+        by_cases hmk : P.managed k = true <;> by_cases hp : pin = true <;>
+          simp [hmk, hp, wsum, aPlus, aMinus] <;> omega
       · rename_i hg
         simp only [not_or, Decidable.not_not, Nat.not_le] at hg
         obtain ⟨hs0, hkz, hkn, htk⟩ := hg
